@@ -273,7 +273,7 @@ class Desugar(ast.NodeTransformer):
         self.count["generator"] = self.count.get("generator", 0) + 1
         return out
 
-    CONTAINERS = {"list": ("list", "append"), "bytearray": ("bytearray", "append"), "set": ("set", "add")}
+    CONTAINERS = {"list": ("list", "append"), "bytearray": ("bytearray", "append"), "set": ("set", "add"), "dict": ("dict", None)}
 
     @staticmethod
     def _fold_int(e: ast.expr) -> ast.expr:
@@ -364,10 +364,25 @@ class Desugar(ast.NodeTransformer):
     def _list_building(self, listname: str, parts, at: ast.stmt) -> List[ast.stmt]:
         kind, it, tgt, ifs, elt, counter = parts
         ctor, adder = self.CONTAINERS[kind]
-        app: ast.stmt = ast.Expr(value=ast.Call(func=ast.Attribute(value=ast.Name(id=listname, ctx=ast.Load()), attr=adder, ctx=ast.Load()), args=[elt], keywords=[]))
+        if kind == "dict":
+            # dict(<pairs>): d[k] = v for every pair
+            if isinstance(elt, ast.Tuple) and len(elt.elts) == 2:
+                k_, v_ = elt.elts
+                pre_pair: List[ast.stmt] = []
+            else:
+                self.tmp += 1
+                kn, vn = f"__k{self.tmp}", f"__v{self.tmp}"
+                pre_pair = [ast.Assign(targets=[ast.Tuple(elts=[ast.Name(id=kn, ctx=ast.Store()), ast.Name(id=vn, ctx=ast.Store())], ctx=ast.Store())], value=elt)]
+                k_, v_ = ast.Name(id=kn, ctx=ast.Load()), ast.Name(id=vn, ctx=ast.Load())
+            app = ast.Assign(targets=[ast.Subscript(value=ast.Name(id=listname, ctx=ast.Load()), slice=k_, ctx=ast.Store())], value=v_)
+        else:
+            pre_pair = []
+            app = ast.Expr(value=ast.Call(func=ast.Attribute(value=ast.Name(id=listname, ctx=ast.Load()), attr=adder, ctx=ast.Load()), args=[elt], keywords=[]))
         for c in reversed(ifs):
             app = ast.If(test=c, body=[app], orelse=[])
-        body: List[ast.stmt] = [app]
+        body: List[ast.stmt] = pre_pair + [app] if not ifs else [app]
+        if ifs and pre_pair:
+            return [at]
         pre: List[ast.stmt] = []
         if counter is not None:
             if ifs:
@@ -375,7 +390,8 @@ class Desugar(ast.NodeTransformer):
             pre.append(ast.Assign(targets=[ast.Name(id=counter, ctx=ast.Store())], value=ast.Constant(value=0)))
             body.append(ast.AugAssign(target=ast.Name(id=counter, ctx=ast.Store()), op=ast.Add(), value=ast.Constant(value=1)))
         init = ast.Assign(targets=[ast.Name(id=listname, ctx=ast.Store())],
-                          value=ast.List(elts=[], ctx=ast.Load()) if kind == "list" else ast.Call(func=ast.Name(id=ctor, ctx=ast.Load()), args=[], keywords=[]))
+                          value=ast.List(elts=[], ctx=ast.Load()) if kind == "list" else ast.Dict(keys=[], values=[]) if kind == "dict" else
+                          ast.Call(func=ast.Name(id=ctor, ctx=ast.Load()), args=[], keywords=[]))
         loop = ast.For(target=tgt, iter=it, body=body, orelse=[])
         out: List[ast.stmt] = []
         for x in [init] + pre + [loop]:
